@@ -431,6 +431,11 @@ def deleteRbf (K : Keys) (s : State) (rbf : List Nat) : State :=
     | some t => delOne K s t R_REPLACED
     | none => s) s
 
+/-- a flagged (in-pool) parent of one of the inputs is on the rbf list (the check added by the 3rd `fix:` commit:
+    a replacement must not spend an output of a transaction it is going to remove) -/
+def spendsReplaced (K : Keys) (ins : List TxIn) (frommem : List Bool) (rbf : List Nat) : Bool :=
+  (ins.zip frommem).any fun (i, m) => m && rbf.contains (K.bidx i.prev)
+
 /-- processTx: result code (0 = accepted) and the new state -/
 def processTx (K : Keys) (minFee : Nat) (s : State) (t : Tx) (fl : Flags) : Nat × State :=
   if !fl.unmined && t.weight > s.cfg.maxTxWeight then (R_TOO_BIG, rejectTx K s t R_TOO_BIG none)
@@ -440,6 +445,8 @@ def processTx (K : Keys) (minFee : Nat) (s : State) (t : Tx) (fl : Flags) : Nat 
   | .error e => (e.code, if e.reject then rejectTx K s t e.code e.missing else
                   (if e.code = R_PANIC then { s with panicked := true } else s))
   | .ok a =>
+    if spendsReplaced K t.ins a.frommem a.rbf then (R_BAD_INPUT, rejectTx K s t R_BAD_INPUT none)
+    else
     let totout := sumU64 t.outs
     if totout > a.totinp then (R_OVERSPEND, rejectTx K s t R_OVERSPEND none)
     else
